@@ -468,6 +468,21 @@ class JoinNestedIf(ast.NodeTransformer):
         return node
 
 
+class FlipNegatedIf(ast.NodeTransformer):
+    """`if not X: A else: B` (both branches present, no elif chain hanging on it)  ->  `if X: B else: A`"""
+
+    def visit_If(self, node):
+        self.generic_visit(node)
+        if isinstance(node.test, ast.UnaryOp) and isinstance(node.test.op, ast.Not) and node.orelse and node.body and \
+                not (len(node.orelse) == 1 and isinstance(node.orelse[0], ast.If)):
+            node.test = node.test.operand
+            node.body, node.orelse = node.orelse, node.body
+        return node
+
+    def visit_Lambda(self, node):
+        return node
+
+
 class _DoubleNot(ast.NodeTransformer):
     """`if not not X:` -> `if X:` (test positions only: the truth value is all that is used)"""
 
@@ -600,9 +615,9 @@ class FlagThread(ast.NodeTransformer):
                         if copies <= 1 or size <= 3:
                             for blk_, k, v, sel in live:
                                 if v is None:
-                                    blk_.insert(k + 1, copy_tree(b))
+                                    blk_.append(copy_tree(b))
                                 elif sel:
-                                    blk_[k + 1:k + 1] = [copy_tree(s_) for s_ in sel]
+                                    blk_.extend(copy_tree(s_) for s_ in sel)
                             out.append(a)
                             i += 2
                             changed[0] = True
@@ -660,8 +675,14 @@ def _leaf_assignments(node, x):
         if not blk:
             return False
         last = blk[-1]
-        if isinstance(last, ast.Assign) and len(last.targets) == 1 and isinstance(last.targets[0], ast.Name) and last.targets[0].id == x:
-            out.append((blk, len(blk) - 1))
+        # the assignment of x, possibly followed by plain assignments of other names (`outside = True; partly = False`)
+        k = len(blk) - 1
+        while k >= 0 and isinstance(blk[k], ast.Assign) and len(blk[k].targets) == 1 and isinstance(blk[k].targets[0], ast.Name) and \
+                blk[k].targets[0].id != x and isinstance(blk[k].value, (ast.Constant, ast.Name)) and \
+                not (isinstance(blk[k].value, ast.Name) and blk[k].value.id == x):
+            k -= 1
+        if k >= 0 and isinstance(blk[k], ast.Assign) and len(blk[k].targets) == 1 and isinstance(blk[k].targets[0], ast.Name) and blk[k].targets[0].id == x:
+            out.append((blk, k))
             return True
         if isinstance(last, ast.If) and last.orelse:
             return leaf(last.body) and leaf(last.orelse)
@@ -1222,6 +1243,15 @@ def keywords_to_positional(tree):
 
 
 def inline_new_constants(tree, rel):
+    """to a fixpoint: a new constant may be defined with another one (`EMPTY = b'\\x00' * ENTRY_SIZE`)"""
+    for _ in range(4):
+        tree, again = _inline_new_constants_once(tree, rel)
+        if not again:
+            break
+    return tree
+
+
+def _inline_new_constants_once(tree, rel):
     """module level `NAME = <literal>` that the reference tree does not have (a magic number that was given a name): the literal is
     written back at its uses inside the module's functions (the definition stays).  Names of the reference tree are left alone: the
     rules know them (or evaluate them)."""
@@ -1281,7 +1311,8 @@ def inline_new_constants(tree, rel):
                         count.get(t_.id) == 1 and '%s:=%s' % (rel, t_.id) not in known:
                     consts[t_.id] = v_
     if not consts:
-        return tree
+        return tree, False
+    again = [False]
 
     class T(ast.NodeTransformer):
         def __init__(self, shadow):
@@ -1313,8 +1344,36 @@ def inline_new_constants(tree, rel):
         if isinstance(st, (ast.FunctionDef, ast.AsyncFunctionDef, ast.ClassDef)):
             T(set()).visit(st)
         elif isinstance(st, ast.Assign) and not (len(st.targets) == 1 and isinstance(st.targets[0], ast.Name) and st.targets[0].id in consts):
+            before = ast.dump(st.value)
             st.value = T(set()).visit(st.value)         # a table / another constant defined with the name
-    return tree
+            if ast.dump(st.value) != before:
+                st.value = _ArithFold().visit(st.value)
+                if immutable_literal(st.value) and len(st.targets) == 1 and isinstance(st.targets[0], ast.Name):
+                    again[0] = True                     # now a literal itself: its uses are written out in the next round
+    return tree, again[0]
+
+
+class _ArithFold(ast.NodeTransformer):
+    """arithmetic on literal constants (small results only): `b'\\x00' * 5`, `8 - 5`, `(1 << 40) - 1`"""
+
+    def visit_BinOp(self, node):
+        self.generic_visit(node)
+        a, b = node.left, node.right
+        if isinstance(a, ast.Constant) and isinstance(b, ast.Constant) and type(a.value) in (int, str, bytes) and type(b.value) in (int, str, bytes):
+            import operator as op
+            fn = {ast.Add: op.add, ast.Sub: op.sub, ast.Mult: op.mul, ast.FloorDiv: op.floordiv, ast.Mod: None, ast.LShift: op.lshift,
+                  ast.RShift: op.rshift, ast.BitAnd: op.and_, ast.BitOr: op.or_, ast.Pow: None}.get(type(node.op))
+            if fn is None:
+                return node
+            if isinstance(node.op, (ast.Mult, ast.LShift)) and isinstance(b.value, int) and abs(b.value) > 4096:
+                return node
+            try:
+                v = fn(a.value, b.value)
+            except Exception:       # noqa
+                return node
+            if type(v) in (int, str, bytes) and (not isinstance(v, (str, bytes)) or len(v) <= 256):
+                return ast.copy_location(ast.Constant(value=v), node)
+        return node
 
 
 def simplify_tree(tree):
@@ -1340,11 +1399,12 @@ def simplify_tree(tree):
     tree = AliasInline().visit(tree)
     tree = ToAug().visit(tree)
     tree = CounterInduction().visit(tree)
-    tree = FlagThread().visit(tree)
     tree = NextToLoop().visit(tree)
     tree = SplitTupleAssign().visit(tree)
     tree = CopyProp().visit(tree)
+    tree = FlagThread().visit(tree)
     tree = JoinNestedIf().visit(tree)
     tree = _DoubleNot().visit(tree)
+    tree = FlipNegatedIf().visit(tree)
     tree = _InlineTemps().visit(tree)
     return ast.fix_missing_locations(tree)
